@@ -133,7 +133,7 @@ class Fn:
             return (d, d.ast.value)
         return None
 
-    def expand(self, expr: ast.AST, at, depth: int = 0, keep=()) -> ast.AST:
+    def expand(self, expr: ast.AST, at, depth: int = 0, keep=(), state_safe: bool = True) -> ast.AST:
         """Inline local variables with a unique simple definition reaching `at` (recursively); names in `keep` stay."""
         if depth > 12:
             return expr
@@ -148,14 +148,14 @@ class Fn:
                     return n
                 dnode, val = u
                 # a definition that reads object state (self.x...) stands for that state only while nothing re-assigns it
-                for sub in ast.walk(val):
+                for sub in (ast.walk(val) if state_safe else ()):
                     if isinstance(sub, ast.Attribute):
                         d = dotted(sub)
                         if d and d.startswith("self."):
                             btw = fn.cfg.between(dnode.id, at.id, NONEXC) if hasattr(at, "id") else set()
                             if any(an.id in btw and an.id not in (dnode.id, at.id) for an, _ in fn.assigns(d)):
                                 return n
-                return fn.expand(copy.deepcopy(val), dnode, depth + 1, keep)
+                return fn.expand(copy.deepcopy(val), dnode, depth + 1, keep, state_safe)
 
             def visit_Lambda(self, n):
                 return n
